@@ -66,7 +66,7 @@ CROP_NOTE = ("modelled: canopy_cover.py, adjust_CCx.py, update_CCx_CDC.py (Crop/
              "biomass_accumulation.py, HIref_current_day.py, harvest_index.py, HIadj_*.py and the yield lines of run_single_timestep.py (Crop/Yield.v), kernels (Kernels.v)")
 
 reg(Prop("C05", "crop state stays inside its configured envelope",
-    [("canopy", 6000, 80000), ("roots", 6000, 80000), ("yield", 6000, 80000), ("kernels", 4000, 40000), ("cropinit", 3000, 40000), ("dayc", 2500, 30000), ("runc", 48, 500)],
+    [("canopy", 6000, 80000), ("roots", 6000, 80000), ("yield", 6000, 80000), ("kernels", 4000, 40000), ("cropinit", 3000, 40000), ("dayc", 2500, 30000), ("runc", 48, 500), ("initialise", 120, 1200)],
     trace_mon("C05", 70, 1200, strict=lambda r: r.random() < 0.6),
     [R_AX, CROP_NOTE],
     [EXACT, "crop_ok / rc_ok / hi_crop_ok parameter hypotheses (0 < CC0 <= CCx <= 1, CGC > 0, 0 < Zmin <= Zmax in whole centimetres, 0 < HIini < HI0, b_HI >= 1 ...), step_ok = CC0*exp(CGC*dt) <= CCx for one day's time increment; "
@@ -268,7 +268,7 @@ reg(Prop("C18", "soil profile and initial water content are built as specified",
     replay=lambda d: _base.replay_worker(monitors2.worker_C18, d)))
 
 reg(Prop("C20", "disabled features and neutral settings are inert",
-    [("evap", 4000, 60000), ("rainirr", 6000, 60000), ("infiltration", 4000, 40000), ("roots", 3000, 30000), ("calendar", 2000, 20000), ("day", 2000, 30000), ("runc", 40, 400)],
+    [("evap", 4000, 60000), ("rainirr", 6000, 60000), ("infiltration", 4000, 40000), ("roots", 3000, 30000), ("calendar", 2000, 20000), ("day", 2000, 30000), ("runc", 40, 400), ("initialise", 120, 1200)],
     worker_mon("C20", monitors2.worker_C20, 22, 300, timeout=900, method=lambda r: r.choice([0, 0, 0, 1, 2, 3, 4, 5])),
     [R_AX, WATER_NOTE, "the curve-number flag gates the percentage at the call site in run_single_timestep (Day.v arg_rp, tied by the day replay)"],
     [EXACT, "neutral irrigation settings: 0 <= MaxIrr, AppEff <= 200"],
